@@ -68,7 +68,17 @@ fn gen_instance(rng: &mut SplitMix64) -> InstSpec {
     let kind = *rng.pick(&KINDS);
     let dynamic = rng.chance(0.4);
     // run-time dimensions go up to 6; static ones are instantiated for 1..=4
-    let dim = DimMode { dynamic, n: if dynamic && rng.chance(0.3) { rng.range(4, 6) as u8 } else { rng.range(1, 4) as u8 } };
+    let dim = DimMode {
+        dynamic,
+        n: if dynamic && rng.chance(0.06) {
+            // run-time dimensions cost no instantiation: a few larger systems
+            rng.range(7, 40) as u8
+        } else if dynamic && rng.chance(0.3) {
+            rng.range(4, 6) as u8
+        } else {
+            rng.range(1, 4) as u8
+        },
+    };
     let field = if rng.chance(0.5) { Field::Real } else { Field::Complex };
     let good_ctor = if dim.dynamic { BOp::NewDyn(dim.n) } else { BOp::New };
     let (start, end, min, max, tol) = gen_values(rng);
@@ -158,7 +168,9 @@ fn gen_instance(rng: &mut SplitMix64) -> InstSpec {
         data: if rng.chance(0.4) { DataMode::Counter } else { DataMode::Unit },
         ops,
         problem: *rng.pick(&PROBLEMS),
-        y0: *rng.pick(&[1.0, 0.25, 2.0, 0.0]),
+        // the initial state is a builder input too: ordinary, zero, negative, and magnitudes
+        // whose square or norm overflows or underflows
+        y0: *rng.pick(&[1.0, 1.0, 0.25, 2.0, 0.0, -3.0, 1e-200, 1.5e154, 1e200]),
         plan: FaultPlan::None,
         payload: *rng.pick(&PAYLOADS),
         drive: match rng.below(6) {
@@ -170,8 +182,12 @@ fn gen_instance(rng: &mut SplitMix64) -> InstSpec {
                 7 => Drive::PollThenCount,
                 8 => Drive::PollThenLast,
                 0 => Drive::Nth0,
-                1 => if rng.chance(0.3) { Drive::PollThenWalk(rng.below(5) as u8) } else { Drive::Walk(rng.below(5) as u8) },
-                2 => Drive::PollThenCollect,
+                1 => match rng.below(10) {
+                    0..=2 => Drive::PollThenWalk(rng.below(5) as u8),
+                    3 | 4 => Drive::WalkOwned(rng.below(2) as u8),
+                    _ => Drive::Walk(rng.below(5) as u8),
+                },
+                2 => if rng.chance(0.5) { Drive::PollThenCollect } else { Drive::PollNThenCollect(rng.range(1, 9) as u8) },
                 3 => Drive::NthSkip(rng.range(1, 9) as u8),
                 4 => Drive::Count,
                 5 => Drive::Last,
@@ -252,6 +268,10 @@ pub fn swarm_run(seed: u64, ri: u64, thorough: bool, st: &mut Stats, errs: &mut 
                     FaultPlan::Scattered(ks)
                 }
             };
+            if !matches!(inst.plan, FaultPlan::Transient(_) | FaultPlan::None) && !inst.payload.has_tag() {
+                // several calls may fail: use a payload that says which call it comes from
+                inst.payload = Payload::Typed;
+            }
         }
         budgets.push(Budget { max_calls: r.calls + 1000, max_polls: r.polls + 64 });
         instances.push(inst);
